@@ -370,6 +370,16 @@ func build(c Case) (out built, err error) {
 func checkCase(c Case, r *vf.R) error {
 	b, err := build(c)
 	if err != nil {
+		// a panic raised by the path geometry code (dashing, stroking, settling of an explicitly drawn stroke) before anything is written is not a statement about the PDF bytes; those operations are the subject of C02, C04 and C05. A panic inside the PDF renderer is.
+		if msg := err.Error(); strings.Contains(msg, "panic in PDF rendering") {
+			if i := strings.Index(msg, "\npanic("); i >= 0 {
+				rest := msg[i+1:]
+				if j := strings.Index(rest, "github.com/tdewolff/canvas"); j >= 0 && strings.HasPrefix(rest[j:], "github.com/tdewolff/canvas.") {
+					r.Class("skipped:panic-in-path-geometry")
+					return nil
+				}
+			}
+		}
 		return err
 	}
 	hasText, hasImg, hasGrad, nlinks := false, false, false, 0
